@@ -8,13 +8,13 @@ claimed = {
  "C05": ("tombstone coherence as an inductive invariant (tombstone flag iff no body, delete keeps exactly system xattrs and clears expiry, body over tombstone drops xattrs) preserved by every KV write entry point", "xattr names over a 2-element universe (closed world)"),
  "C06": ("insert-style entry points (Add, AddRaw, WriteCas AddOnly / CAS 0) from an arbitrary invariant state: succeed iff no body, refused => every document untouched", "relies on the C05 invariant for 'deleted by any path'"),
  "C07": ("body-only writers (SetRaw, WriteCas, Incr) leave all xattrs of a live document byte-for-byte intact", "xattr entry points pending"),
+ "C08": ("live feed, sequential part: for every KV and xattr write entry point from an arbitrary state, with real dcpFeed queues registered through the writing handle, a second handle (copy()) and another collection: exactly one event per successful mutation on each feed of the collection, none elsewhere, none on failure/refusal, and the event's key/opcode/body+xattrs encoding/datatype/CAS/expiry/revision equal the post-state row", "event order under concurrent writers not yet encoded"),
+ "C09": ("backfill over an arbitrary invariant-satisfying table (2 symbolic rows quick, 3 thorough) and arbitrary start CAS: one event per document of the collection with CAS >= start, in CAS order, each field-equal to the live-event oracle for that row", "feed start racing a writer not yet encoded"),
  "C11": ("frame condition of every KV write entry point with the same key present in two collections: no row of another collection, no other table, and not the other collection's high-water mark change", "DropDataStore, views, queries pending"),
  "C17": ("revision number +1 (1 on creation) for every KV write entry point from an arbitrary state", "feed/virtual-xattr agreement pending"),
 }
 notyet = {
  "C03": "concurrency engine (2-thread symbolic schedules) not registered yet",
- "C08": "feed harnesses not registered yet",
- "C09": "backfill harnesses not registered yet",
  "C10": "crash/fault harnesses not registered yet",
  "C12": "view harnesses not registered yet",
  "C13": "registry harnesses not registered yet",
